@@ -359,6 +359,10 @@ def check_core(case, ctx):
                             classes.add("multi-row-onupdate-generator")
             conn.rollback()
         ctx.note(case, nontrivial, classes=sorted(classes))
+    except Exception:
+        if not ctx._noted:
+            ctx.note(case, nontrivial, classes=sorted(classes))
+        raise
     finally:
         eng.dispose()
 
@@ -504,6 +508,10 @@ def check_orm(case, ctx):
         finally:
             sess.close()
         ctx.note(case, nontrivial, classes=sorted(classes))
+    except Exception:
+        if not ctx._noted:
+            ctx.note(case, nontrivial, classes=sorted(classes))
+        raise
     finally:
         eng.dispose()
         reg.dispose()
